@@ -1771,3 +1771,69 @@ package log
 //@   loop 7 invariant[C02,C12,C15,C16:bound-only-to-started] forall t string :: has(tagRegistry, t) ==> tagRegistry[t].logger == old(tagRegistry[t].logger) || startedL[tagRegistry[t].logger] > old(startedL)[tagRegistry[t].logger]
 //@   loop 9 invariant[C02,C05,C12,C15,C16:lists] liveListsWF()
 //@   loop 10 invariant[C02,C05,C12,C15,C16:lists] liveListsWF()
+
+// ---- small accessors, registries and no-op lifecycle methods ----------------------------------------------------
+//@ func (PluginTag).Get
+//@   modifies nothing
+//@   nopanic[C15]
+//@   ensures[C15:unnamed-first-item] key == "" ==> result == tagItem(tag, 0)
+//@   ensures[C15:absent-means-empty] key != "" && (forall j int :: 1 <= j && j < split_count(tag, ',') ==> itemOK(tag, j) && itemName(tag, j) != key) ==> result == ""
+
+//@ func RegisterTimeRotation
+//@   requires timeRotationRegistration != nil
+//@   modifies map(timeRotationRegistration)
+//@   nopanic[C15]
+//@   ensures[C15:registered] has(timeRotationRegistration, name) && timeRotationRegistration[name] == policy
+//@   ensures[C15:others-kept] forall n string :: n != name ==> has(timeRotationRegistration, n) == old(has(timeRotationRegistration, n)) && timeRotationRegistration[n] == old(timeRotationRegistration[n])
+
+//@ func RegisterProperty
+//@   requires propertyRegistry != nil
+//@   modifies map(propertyRegistry)
+//@   nopanic[C15]
+//@   ensures[C15:registered] has(propertyRegistry, key) && propertyRegistry[key] == val
+//@   ensures[C15:others-kept] forall k string :: k != key ==> has(propertyRegistry, k) == old(has(propertyRegistry, k)) && propertyRegistry[k] == old(propertyRegistry[k])
+
+//@ func (*LoggerBase).GetName
+//@   requires c != nil
+//@   modifies nothing
+//@   ensures[C12,C16:name] result == c.Name
+//@ func (*LoggerBase).GetTags
+//@   requires c != nil
+//@   modifies nothing
+//@   ensures[C02:tags] result == c.Tags
+//@ func (*AppenderBase).GetName
+//@   requires c != nil
+//@   modifies nothing
+//@   ensures[C16:name] result == c.Name
+//@ func (Level).Code
+//@   modifies nothing
+//@   ensures[C01:code] result == l.code
+
+// starting and stopping a logger or appender that holds no resource does nothing and cannot fail
+//@ func (*SyncLogger).Start
+//@   modifies nothing
+//@   nopanic[C05,C16]
+//@   ensures[C16:cannot-fail] result == nil
+//@ func (*SyncLogger).Stop
+//@   modifies nothing
+//@   nopanic[C05,C16]
+//@ func (*ConsoleAppender).Start
+//@   modifies nothing
+//@   nopanic[C05,C16]
+//@   ensures[C16:cannot-fail] result == nil
+//@ func (*ConsoleAppender).Stop
+//@   modifies nothing
+//@   nopanic[C05,C16]
+//@ func (*DiscardAppender).Start
+//@   modifies nothing
+//@   nopanic[C05,C16]
+//@   ensures[C16:cannot-fail] result == nil
+//@ func (*DiscardAppender).Stop
+//@   modifies nothing
+//@   nopanic[C05,C16]
+//@ func (*DiscardAppender).Append
+//@   modifies nothing
+//@   nopanic[C16,C19]
+//@ func (*DiscardAppender).Write
+//@   modifies nothing
+//@   nopanic[C16,C19]
